@@ -45,6 +45,14 @@ func (f *fakeIn) Open() error                   { return nil }
 func (f *fakeIn) Close() error                  { return nil }
 func (f *fakeIn) ReceiveChannel() <-chan []byte { return f.ch }
 
+// a message without bytes is still a message that was delivered
+func hexOrEmpty(b []byte) string {
+	if len(b) == 0 {
+		return "EMPTY"
+	}
+	return hex.EncodeToString(b)
+}
+
 // relay <seed> <emitters> <perEmitter> <inputMessages>
 func relay(seed int64, ne, per, nin int, quiet time.Duration) string {
 	rng := rand.New(rand.NewSource(seed))
@@ -113,7 +121,7 @@ func relay(seed int64, ne, per, nin int, quiet time.Duration) string {
 		for len(portGot) < ne*per {
 			select {
 			case b := <-out.ch:
-				portGot = append(portGot, hex.EncodeToString(b))
+				portGot = append(portGot, hexOrEmpty(b))
 			case <-time.After(2 * time.Second):
 				return
 			}
@@ -124,7 +132,7 @@ func relay(seed int64, ne, per, nin int, quiet time.Duration) string {
 		for {
 			select {
 			case b := <-out.ch:
-				portGot = append(portGot, hex.EncodeToString(b))
+				portGot = append(portGot, hexOrEmpty(b))
 				continue
 			case <-deadline:
 			}
@@ -138,7 +146,7 @@ func relay(seed int64, ne, per, nin int, quiet time.Duration) string {
 		for len(inGot) < nin {
 			select {
 			case b := <-evIn:
-				inGot = append(inGot, hex.EncodeToString(b))
+				inGot = append(inGot, hexOrEmpty(b))
 			case <-time.After(2 * time.Second):
 				return
 			}
@@ -147,7 +155,7 @@ func relay(seed int64, ne, per, nin int, quiet time.Duration) string {
 		for {
 			select {
 			case b := <-evIn:
-				inGot = append(inGot, hex.EncodeToString(b))
+				inGot = append(inGot, hexOrEmpty(b))
 				continue
 			case <-deadline:
 			}
@@ -164,6 +172,11 @@ func relay(seed int64, ne, per, nin int, quiet time.Duration) string {
 		}
 		inSent = append(inSent, hex.EncodeToString(b))
 		in.ch <- b
+	}
+	if seed%4 == 1 {
+		// the driver closes its receive channel (the port goes away) while the relay is still running: nothing more arrives,
+		// so nothing more may be delivered
+		close(in.ch)
 	}
 	wg.Wait()
 	<-pdone
